@@ -112,7 +112,9 @@ def bindCall (rh : Node) : Found :=
   match rh.children with
   | [fn, arg] =>
     if fn.kind = .sel ∧ fn.a.name = "Bind" then
-      if arg.kind = .ident then (if arg.a.ty = "" then .crash else .found "" arg.a.ty)
+      if arg.kind = .ident then
+        -- a pointer variable: the body is the pointed value
+        (if arg.a.ty = "" then .crash else .found "" (if arg.a.elem ≠ "" then arg.a.elem else arg.a.ty))
       else if arg.kind = .addr then
         (match arg.children with
         | [x] => if x.kind = .ident then (if x.a.ty = "" then .crash else .found "" x.a.ty) else .crash
